@@ -636,7 +636,7 @@ def run(ctx):
                 for focus, regs in stress_plans(6, nalt):
                     todo_lib.append(dict(recipe=r, kind='stress', seed=int(g.integers(0, 2 ** 31)), focus=focus, regimes=list(regs)))
         todo_lib += [dict(recipe=r, kind='random', seed=int(g.integers(0, 2 ** 31)), nops=int(g.integers(0, 26)))
-                     for r in RECIPES + CONTROLS for _ in range(reps)]
+                     for r in RECIPES + CONTROLS if r not in histzoo.STRESS_ONLY for _ in range(reps)]
     for job in todo_lib:
         recipe, kind = job['recipe'], job.get('kind', 'random')
         try:
@@ -659,7 +659,13 @@ def run(ctx):
             d['stress'] = d.get('stress', 0) + 1
         if failed:
             d['differing'] += 1
-            if not recipe.startswith('control:'):
+            if isinstance(desc, dict) and desc.get('guess_ratio', 0.0) >= 1e9:
+                # known finding K07: decided from the case (norm of CG's initial guess / norm of the new solution)
+                d['K07'] = d.get('K07', 0) + 1
+                ctx.violation('impl-violates', 'CG.solve', 'history run equals fresh run',
+                              'CG started from a previous solution >= 1e9 times larger than the new one', desc,
+                              expected='fresh network result', got=failed[:6])
+            elif not recipe.startswith('control:'):
                 ctx.violation('impl-violates', recipe, 'history run equals fresh run', 'library network', desc,
                               expected='fresh network result (1e-9 relative; iterative solvers and singular adjoint systems: '
                                        'the tolerance of the recipe)', got=failed[:6])
@@ -673,6 +679,17 @@ def run(ctx):
             pv['witness:' + name]['differing'] += 1
             ctx.violation('impl-violates', name.split()[1] + '._response', 'history run equals fresh run', 'regression witness',
                           dict(witness=name), expected='same as fresh module', got=msg)
+    # magnitude of the PREVIOUS solution (initial guess of an iterative solver): finding, see findings/K07_C03_cg_initial_guess_magnitude.py
+    if not replaying or (isinstance(rp, dict) and 'witness' in rp):
+        ctx.search_evaluations += 1
+        msg, ratio = witness_cg_guess(pym)
+        pv['witness:CG initial guess of another magnitude'] = dict(histories=1, differing=int(bool(msg)))
+        if msg:
+            # K07 only when the case says so: every differing solve started from a guess >= 1e9 times larger than the solution
+            ctx.violation('impl-violates', 'CG.solve', 'history run equals fresh run',
+                          'CG started from a previous solution >= 1e9 times larger than the new one' if ratio >= 1e9 else
+                          'CG with the previous solution as initial guess', dict(witness='CG initial guess of another magnitude'),
+                          expected='same as fresh module (to the tolerance of CG)', got=msg)
     ctx.extra['purity_validation'] = pv
     phases['library histories (stress + random)'] = round(_time.time() - _t, 1)
     ctx.extra['phase_seconds'] = phases
@@ -700,6 +717,33 @@ def witness_f16(pym):
         if not np.allclose(m.sig_out[0].state, fresh.sig_out[0].state, rtol=1e-9, atol=1e-12):
             return 'solution differs from fresh module'
     return None
+
+
+def witness_cg_guess(pym):
+    """LinSolve hands its previous solution to CG as initial guess: solve with a load 1e12 (1e16) times larger first.
+    returns (message or None, smallest ratio |guess| / |new solution| among the differing cases)"""
+    import scipy.sparse as sps
+    n = 30
+    A = sps.diags([-1, 2.2, -1], [-1, 0, 1], shape=(n, n), format='csc')
+    b = np.random.default_rng(0).standard_normal(n)
+    x = np.linalg.solve(A.toarray(), b)
+    out, ratios = [], []
+    for tol, factor in ((1e-10, 1e3), (1e-10, 1e12), (1e-7, 1e16)):
+        sA, sb = pym.Signal('A', A), pym.Signal('b', factor * b)
+        m = pym.LinSolve([sA, sb], pym.Signal('u'), solver=pym.solvers.CG(tol=tol))
+        m.response()
+        guess = float(np.linalg.norm(m.sig_out[0].state))
+        sb.state = b.copy()
+        m.response()
+        fresh = pym.LinSolve([pym.Signal('A', A), pym.Signal('b', b.copy())], pym.Signal('u'), solver=pym.solvers.CG(tol=tol))
+        fresh.response()
+        eh = float(np.linalg.norm(m.sig_out[0].state - x) / np.linalg.norm(x))
+        ef = float(np.linalg.norm(fresh.sig_out[0].state - x) / np.linalg.norm(x))
+        if ef <= 100 * tol < eh:
+            ratios.append(guess / float(np.linalg.norm(fresh.sig_out[0].state)))
+            out.append(f'CG(tol={tol:g}), |initial guess| / |new solution| = {ratios[-1]:.1e}: relative error {eh:.1e} after the '
+                       f'history, {ef:.1e} fresh')
+    return ('; '.join(out) or None), (min(ratios) if ratios else 0.0)
 
 
 def witness_f12(pym):
